@@ -176,12 +176,12 @@ func c18ReadOnlyAlias(r *core.R, c *c18Ctx, n ast.Node) bool {
 	return c18VarReadOnly(r, c, fd, o, 3)
 }
 
-func c18CheckImmutable(r *core.R, c *c18Ctx, lit *c18Lit) {
+func c18CheckImmutable(r *core.R, c *c18Ctx, lit *c18Lit, res *c18InitResult) {
 	ic := "immutable@" + c.table.Name()
 	naliases := 0
 	ws := c18Writes(c.pk, c.table, func(n ast.Node) bool {
-		if n == ast.Node(lit.addr) {
-			return true
+		if n == ast.Node(lit.addr) || res.writes[n] {
+			return true // the unmarshal target, or an assignment during initialisation that L2 (sorted@) has followed
 		}
 		if c18ReadOnlyAlias(r, c, n) {
 			naliases++
@@ -196,7 +196,7 @@ func c18CheckImmutable(r *core.R, c *c18Ctx, lit *c18Lit) {
 		if naliases > 0 {
 			extra = fmt.Sprintf("; %d local pointer(s) to the current entry are only read", naliases)
 		}
-		r.OK(ic, lit.call.Pos(), "%s is written only through &%s in the json.Unmarshal call of %s (plus the in-place sort of its value lists)%s", c.table.Name(), c.table.Name(), lit.fd.Name.Name, extra)
+		r.OK(ic, lit.call.Pos(), "%s is written only during package initialisation (json.Unmarshal in %s; %d assignment(s) of the decoded slice followed by C18.L2 sorted@; the in-place sort of its value lists)%s", c.table.Name(), lit.fd.Name.Name, len(res.writes), extra)
 	case inInit(ws[0]):
 		r.Unknown(ic, ws[0], "%s is also written at %s inside %s; the rule only understands unmarshal followed by an in-place sort", c.table.Name(), r.P.Rel(ws[0]), lit.fd.Name.Name)
 	default:
